@@ -207,12 +207,24 @@ class QueryPlanner:
         # projects = set()
         integrations = set()
 
+        # names of the CTEs defined in the query: a reference to one of them is not a table of any database
+        cte_names = set()
+
+        def find_cte_names(node, **kwargs):
+            if isinstance(node, Select) and node.cte is not None:
+                for cte in node.cte:
+                    cte_names.add(cte.name.parts[-1])
+
+        query_traversal(query, find_cte_names)
+
         def find_objects(node, is_table, **kwargs):
             if isinstance(node, Function):
                 if node.namespace is not None or node.op.lower() in ('llm',):
                     user_functions.append(node)
 
             if is_table:
+                if isinstance(node, ast.Identifier) and len(node.parts) == 1 and node.parts[0] in cte_names:
+                    return
                 if isinstance(node, ast.Identifier):
                     integration, _ = self.resolve_database_table(node)
 
